@@ -21,7 +21,10 @@ RULE = ("k = 2..4 pids drawn from prefix-related names (mat, matt, matthew, MATT
         "byte for byte; after the last delete the object must be gone. (b) invariant at a hook, under the cooperative "
         "scheduler (all schedules with <= 1/2 preemptions of the C07 pair scenarios in which a remover - delete_object, "
         "delete_if_invalid_object - races a store/tag): at the moment an object file is unlinked or renamed away from "
-        "its permanent address no non-empty cid reference list may exist for it. distinct_nontrivial = distinct (set of "
+        "its permanent address no non-empty cid reference list may exist for it. (c) many sharers: 140 (quick) / 600 "
+        "(thorough) pids with long names on one object - a cid list of 10-40 KB, rewritten in place on every delete - "
+        "stored, tagged, deleted and re-stored in random order with the model comparison after every call. "
+        "distinct_nontrivial = distinct (set of "
         "pids still bound, call shape, outcome) observations with at least one pid still bound.")
 ASSUMPTIONS = []
 
@@ -83,6 +86,9 @@ def shards(tier, seed):
     nrand = 160 if tier == "quick" else 4000
     for s in split_seeds(seed * 1000 + 4, n):
         out.append(("rand", nrand // n, tier, s))
+    # (c) many sharers: a cid list much longer than one I/O buffer, rewritten in place many times
+    for s in split_seeds(seed + 4004, 2 if tier == "quick" else n):
+        out.append(("long", 140 if tier == "quick" else 600, tier, s))
     # (b) removal-time invariant under controlled interleavings: every pair scenario with a call that can remove
     # an object (delete_object / delete_if_invalid_object) racing a call that references one
     from .. import concprops as P
@@ -135,7 +141,66 @@ def _F(tag, detail, i, op):
     return Finding(tag, detail, i, op)
 
 
+def run_long(npids, sub_seed):
+    """One object shared by `npids` pids with long names (the cid list spans several buffers); deletes and new tags
+    in random order; after every call the list must hold exactly the bound pids and a sample must be retrievable."""
+    res = ShardResult()
+    rng = random.Random(sub_seed)
+    scratch = new_scratch("c04l")
+    contents = {k: make_content(v["cseed"], v["size"]) for k, v in SPEC.items()}
+    try:
+        pids = [f"urn:uuid:{rng.getrandbits(128):032x}:{'x' * rng.randrange(0, 40)}:{i}" for i in range(npids)]
+        from ..seqengine import World
+        w = World(scratch, contents, DOCS, pids=pids)
+        ops = [{"op": "store", "pid": p, "content": "S", "kind": "path"} if i % 3 else {"op": "tag", "pid": p, "cid": ["of", "S"]}
+               for i, p in enumerate(pids)]
+        ops.insert(0, {"op": "store", "pid": None, "content": "S", "kind": "path"})
+        order = list(pids)
+        rng.shuffle(order)
+        half = order[: npids // 2]
+        ops += [{"op": "delete", "pid": p} for p in half]
+        ops += [{"op": "store", "pid": p, "content": "S", "kind": "path"} for p in half[: npids // 6]]
+        rest = [p for p in pids if p not in half] + half[: npids // 6]
+        rng.shuffle(rest)
+        ops += [{"op": "delete", "pid": p} for p in rest]
+        before = None
+        for i, op in enumerate(ops):
+            last = i == len(ops) - 1
+            out, findings, _b, before = w.step(op, i, before=before, check_retrievable=False)
+            res.evaluations += 1
+            if i % 10 == 0 or last:
+                bound = sorted(w.model.bound)
+                for p in ([bound[0], bound[-1], rng.choice(bound)] if bound else []):
+                    from ..common import call, read_all_and_close
+                    r = call(w.store.retrieve_object, p)
+                    res.count("retrieves_of_sharers")
+                    if not r.ok or read_all_and_close(r.value) != contents["S"]:
+                        findings.append(_F("state:retrievable", {"pid": p, "error": r.brief()}, i, op))
+            res.distinct.add(f"long:{sub_seed}:{len(w.model.bound)}:{op['op']}")
+            rel = [f for f in findings if relevant(f, w)]
+            for f in findings:
+                if not relevant(f, w):
+                    res.foreign[f.tag] = res.foreign.get(f.tag, 0) + 1
+            if rel:
+                sig = finding_signature(rel[0])
+                sig["sharers"] = "many (cid list longer than one buffer)"
+                res.violation(sig, {"engine": "C04-long", "npids": npids, "seed": sub_seed, "step": i, "op": op,
+                                    "bound_now": len(w.model.bound), "finding": rel[0].to_json()})
+                break
+            if findings:
+                break
+        res.count("long_list_max_bytes", max(0, sum(len(p) + 1 for p in pids)))
+        if not w.model.bound and w.layout.cid_of(contents["S"]) not in before.objects:
+            res.count("last_delete_removes_object")
+    finally:
+        rmtree(scratch)
+        clear_atexit_tmp_handlers()
+    return res
+
+
 def run_shard(mode, payload, tier, sub_seed):
+    if mode == "long":
+        return run_long(payload, sub_seed)
     if mode == "conc":
         from .. import concprops as P
         res = P.run_scenarios(payload, 1 if tier == "quick" else 2, 4 if tier == "quick" else 20, 0, sub_seed,
